@@ -148,9 +148,12 @@ type Case struct {
 	// AgeMS: pause between constructing/starting the exporter and the case's export call.
 	// Warmup: a first export, answered with success, is made through the same exporter
 	// instance before that pause.
-	AgeMS      int  `json:"age_ms,omitempty"`
-	Warmup     bool `json:"warmup,omitempty"`
-	InterfereK int  `json:"interfere_k,omitempty"`
+	// HugeRetryAfter (generator bookkeeping, the value is in the script): the case carries a
+	// Retry-After around / above 2^31 / 2^32 on a retryable answer.
+	HugeRetryAfter string `json:"huge_retry_after,omitempty"`
+	AgeMS          int    `json:"age_ms,omitempty"`
+	Warmup         bool   `json:"warmup,omitempty"`
+	InterfereK     int    `json:"interfere_k,omitempty"`
 }
 
 const (
@@ -438,7 +441,11 @@ func genCase(isGRPC bool) func(*rapid.T) Case {
 			c.RetryEnabled, c.InitialMS, c.MaxIntervalMS = true, 1, 5
 			c.MaxElapsedMS = oneOf(t, "max_elapsed_ms", elapsed...)
 		}
-		scenario := pick(t, "scenario", 46, 10, 4, 10, 16, 14, 8, 8, 7)
+		hugeHint := 6
+		if isGRPC {
+			hugeHint = 0
+		}
+		scenario := pick(t, "scenario", 46, 10, 4, 10, 16, 14, 8, 6, 7, hugeHint)
 		switch scenario {
 		case 0: // plain
 			if rng(t, "retry_disabled", 0, 6) == 0 {
@@ -496,6 +503,22 @@ func genCase(isGRPC bool) func(*rapid.T) Case {
 				fast(0, 5000)
 				c.TimeoutMS = oneOf(t, "timeout_ms", 0, 30000)
 			}
+		case 9:
+			// Retry-After values around and above 2^31 / 2^32 (HTTP). Three quarters:
+			// a budget (300/500 ms) that is smaller than the value read as
+			// NANOSECONDS (>= 2.1 s), let alone as seconds: whatever the unit, the
+			// export has to give up instead of sending another attempt. One quarter
+			// (~1/85 of the cases): 2200000000 with a 5 s budget - read as
+			// nanoseconds (the open unit finding) that is a 2.2 s wait which fits
+			// and must be waited at least; read as seconds it exceeds the budget
+			// and the export gives up, so the case is finite either way.
+			c.RetryEnabled, c.InitialMS, c.MaxIntervalMS = true, 1, 5
+			if rng(t, "huge_hint_waited", 0, 3) == 0 {
+				c.MaxElapsedMS, c.HugeRetryAfter = 5000, "2200000000"
+			} else {
+				c.MaxElapsedMS = oneOf(t, "max_elapsed_ms", 300, 500)
+				c.HugeRetryAfter = oneOf(t, "huge_retry_after", "2147483648", "4294967295", "4294967296", "4500000000")
+			}
 		case 8:
 			// an exporter that is older than its MaxElapsedTime when the export is
 			// made (the budget is per export call), optionally after an earlier,
@@ -543,8 +566,15 @@ func genCase(isGRPC bool) func(*rapid.T) Case {
 			}
 			c.PlanK = rng(t, "plan_k", 0, maxK)
 		}
-		if c.AgeMS > 0 && n < 2 {
+		if (c.AgeMS > 0 || c.HugeRetryAfter != "") && n < 2 {
 			n = 2
+		}
+		hugeAt := 0
+		if c.HugeRetryAfter != "" {
+			hugeAt = rng(t, "huge_hint_at", 0, 1)
+			if hugeAt > n-2 {
+				hugeAt = n - 2
+			}
 		}
 		if c.Interfere > 0 {
 			if n < 2 {
@@ -575,6 +605,11 @@ func genCase(isGRPC bool) func(*rapid.T) Case {
 				st = g.retryableStep(t)
 				if isGRPC && !slowBackoff && rapid.Bool().Draw(t, "long_wait") {
 					st.RetryInfoMS = 300 // makes the wait long enough for the plan to land inside it
+				}
+			case c.HugeRetryAfter != "" && i <= hugeAt:
+				st = Step{Kind: "status", Code: oneOf(t, "code", httpRetryCodes...), RetryInfoMS: -1}
+				if i == hugeAt {
+					st.RetryAfter = c.HugeRetryAfter
 				}
 			case c.AgeMS > 0 && i == 0:
 				st = g.retryableStep(t)
@@ -664,7 +699,12 @@ func finite(c Case) bool {
 			return false
 		}
 		if n, ok := retryAfterSeconds(st.RetryAfter); ok && n > 5 {
-			return false
+			// A huge delay is only allowed with a finite budget of at most 5 s:
+			// read as seconds it exceeds the budget (the export gives up), read
+			// as nanoseconds it either exceeds it too or is a wait of < 5 s.
+			if !(c.MaxElapsedMS > 0 && c.MaxElapsedMS <= 5000) && c.RetryEnabled {
+				return false
+			}
 		}
 	}
 	if c.RetryEnabled && c.MaxIntervalMS > 5000 || c.RetryEnabled && c.InitialMS > 5000 {
@@ -750,7 +790,11 @@ func budget(c Case) time.Duration {
 				d += time.Duration(st.RetryInfoMS) * time.Millisecond
 			}
 		} else if n, ok := retryAfterSeconds(st.RetryAfter); ok {
-			d += time.Duration(n) * time.Second
+			if n <= 5 {
+				d += time.Duration(n) * time.Second
+			} else {
+				d += 5 * time.Second // finite() guarantees a budget of at most 5 s with such values
+			}
 		}
 	}
 	return d + wait + time.Second
@@ -1042,6 +1086,7 @@ func execute(c Case) (ob observation) {
 type hintObs struct {
 	Attempt int    `json:"attempt"` // index of the attempt that came too early
 	Gap     string `json:"gap"`
+	GapNS   int64  `json:"gap_ns"`
 	Hint    string `json:"hint"`
 	After   string `json:"after"`
 }
@@ -1185,7 +1230,7 @@ func evaluate(c Case, ob observation) []vk.Violation {
 			if gap := e.Arrive - prev.RespAt; gap < prev.Hint {
 				v := vk.V("retry_hint_not_honoured", "%s: attempt %d arrived %v after answer %d (%s) which asked for a delay of %v; collector log: %s",
 					c.Exporter, i, gap, i-1, prev.Desc, prev.Hint, describe(es))
-				v.Observed = hintObs{Attempt: i, Gap: gap.String(), Hint: prev.Hint.String(), After: prev.Desc}
+				v.Observed = hintObs{Attempt: i, GapNS: int64(gap), Gap: gap.String(), Hint: prev.Hint.String(), After: prev.Desc}
 				vs = append(vs, v)
 			}
 		}
@@ -1198,6 +1243,17 @@ func evaluate(c Case, ob observation) []vk.Violation {
 		if c.RetryEnabled && maxElapsed > 0 && ex.grpc && prev.Outcome == oRetryable && prev.Hint > 0 {
 			if at := prev.RespAt - ob.start; at+prev.Hint > maxElapsed+slackHintBudget {
 				bad("attempt_although_hint_exceeds_max_elapsed", "attempt %d was sent although answer %d (%s) came %v after the call started and asked for a delay of %v: %v > MaxElapsedTime %v", i, i-1, prev.Desc, at, prev.Hint, at+prev.Hint, maxElapsed)
+			}
+		}
+		// The same for OTLP/HTTP, independent of the unit the client reads
+		// Retry-After in (open finding: nanoseconds instead of seconds): if even
+		// the NANOSECOND reading of the value exceeds the budget, no reading
+		// permits another attempt.
+		if c.RetryEnabled && maxElapsed > 0 && !ex.grpc && prev.Outcome == oRetryable && prev.Hint > 0 && sawAnswer && prev.Step < len(c.Script) {
+			if n, ok := retryAfterSeconds(c.Script[prev.Step].RetryAfter); ok {
+				if at := prev.RespAt - ob.start; at+time.Duration(n) > maxElapsed+slackHintBudget {
+					bad("attempt_although_hint_exceeds_max_elapsed", "attempt %d was sent although answer %d (%s) came %v after the call started: the delay exceeds MaxElapsedTime %v even when the value is read as nanoseconds (%v)", i, i-1, prev.Desc, at, maxElapsed, time.Duration(n))
+				}
 			}
 		}
 		if c.RetryEnabled && maxElapsed > 0 {
@@ -1353,6 +1409,24 @@ func classify(c Case, ob observation) vk.Info {
 	}
 	info.ClassIf(c.Gzip, "gzip")
 	info.Class(fmt.Sprintf("headers=%d", c.Headers))
+	if c.HugeRetryAfter != "" {
+		for i, e := range es {
+			if e.Step >= len(c.Script) || c.Script[e.Step].RetryAfter != c.HugeRetryAfter || e.Outcome != oRetryable {
+				continue
+			}
+			n, _ := retryAfterSeconds(c.HugeRetryAfter)
+			switch {
+			case i+1 == len(es) && ob.err != nil && time.Duration(n) > time.Duration(c.MaxElapsedMS)*time.Millisecond:
+				info.Class(fmt.Sprintf("%s:retry_after_%s_exceeds_%dms_budget_in_any_unit=>gave_up", c.Exporter, c.HugeRetryAfter, c.MaxElapsedMS))
+			case i+1 == len(es) && ob.err != nil:
+				info.Class(fmt.Sprintf("%s:retry_after_%s_within_%dms_budget_as_ns=>gave_up", c.Exporter, c.HugeRetryAfter, c.MaxElapsedMS))
+			case i+1 < len(es) && es[i+1].Arrive-e.RespAt >= time.Duration(n):
+				info.Class(fmt.Sprintf("%s:retry_after_%s_waited_at_least_the_nanosecond_reading", c.Exporter, c.HugeRetryAfter))
+			case i+1 < len(es):
+				info.Class(fmt.Sprintf("%s:retry_after_%s_resent_earlier_than_the_nanosecond_reading", c.Exporter, c.HugeRetryAfter))
+			}
+		}
+	}
 	if c.AgeMS > 0 {
 		kind := "aged_exporter"
 		if c.Warmup {
@@ -1518,34 +1592,43 @@ func run(c Case) ([]vk.Violation, vk.Info) {
 // ---------------------------------------------------------------------
 // known findings
 
-func earlyAttempt(v vk.Violation) (int, bool) {
+func earlyAttempt(v vk.Violation) (attempt int, gap time.Duration, ok bool) {
 	switch o := v.Observed.(type) {
 	case hintObs:
-		return o.Attempt, true
+		return o.Attempt, time.Duration(o.GapNS), true
 	case map[string]any:
-		if f, ok := o["attempt"].(float64); ok {
-			return int(f), true
+		f, ok1 := o["attempt"].(float64)
+		g, ok2 := o["gap_ns"].(float64)
+		if ok1 && ok2 {
+			return int(f), time.Duration(g), true
 		}
 	}
-	return 0, false
+	return 0, 0, false
 }
 
 var known = map[string]func(Case, vk.Violation) bool{
 	// The three OTLP/HTTP clients use the Retry-After value N (seconds) as N
 	// nanoseconds. Matches only: hint violation + HTTP exporter + the answer
-	// preceding the early attempt carries an integer Retry-After >= 1.
+	// preceding the early attempt carries an integer Retry-After N >= 1 + the
+	// measured wait is shorter than N seconds (that is the violation) but NOT
+	// shorter than N nanoseconds. The wait is measured from before the answer
+	// left the collector to the arrival of the next attempt, so it is never
+	// shorter than what the client slept: no tolerance is needed. A wait below
+	// the nanosecond reading (value dropped, truncated, wrapped ...) is not
+	// explained by the finding.
 	"http_retry_after_treated_as_nanoseconds": func(c Case, v vk.Violation) bool {
 		ex, ok := exporters[c.Exporter]
 		if v.Kind != "retry_hint_not_honoured" || !ok || ex.grpc {
 			return false
 		}
-		i, ok := earlyAttempt(v)
+		i, gap, ok := earlyAttempt(v)
 		if !ok || i < 1 || i-1 >= len(c.Script) {
 			return false
 		}
 		st := c.Script[i-1]
 		n, isInt := retryAfterSeconds(st.RetryAfter)
-		return isInt && n >= 1 && (st.Kind == "status" || st.Kind == "slow") && httpRetryable(st.Code)
+		return isInt && n >= 1 && (st.Kind == "status" || st.Kind == "slow") && httpRetryable(st.Code) &&
+			gap >= time.Duration(n)
 	},
 	// otlploghttp.Exporter.Shutdown only swaps the client for a no-op one and
 	// returns; an export that is in its retry loop keeps re-sending after
@@ -1563,7 +1646,7 @@ const ruleCommon = "one export per case against a scripted loopback collector; s
 func TestHTTPRetry(t *testing.T) {
 	vk.Run(t, vk.Spec[Case]{
 		Property: "C14", Check: "http_retry",
-		Rule: "otlptracehttp / otlpmetrichttp / otlploghttp: answers over {200, 200+partial success, 400, 401, 404, 408, 429, 500, 502, 503, 504, connection closed (FIN/RST), slow, held, client-side temporary / non-temporary network error injected through WithProxy} x Retry-After {absent, 0, 1, 2, garbage}; " +
+		Rule: "otlptracehttp / otlpmetrichttp / otlploghttp: answers over {200, 200+partial success, 400, 401, 404, 408, 429, 500, 502, 503, 504, connection closed (FIN/RST), slow, held, client-side temporary / non-temporary network error injected through WithProxy} x Retry-After {absent, 0, 1, 2, garbage; in ~1/21 of the cases 2147483648 / 4294967295 / 4294967296 / 4500000000 with a 300/500 ms budget or 2200000000 with a 5 s budget}; " +
 			"Retry-After >= 1 on a retryable answer in 1/16 of the cases (~25 per exporter in quick) (each costs >= 1 s once the unit defect is repaired); " + ruleCommon,
 		Quick: 150, Thorough: 1800,
 		Gen: genCase(false), Run: run, Known: known,
